@@ -9,7 +9,8 @@
      MemDelete     Delete: unlink loop
      MemOps        every DB call against the sorted association list
      MemIter       every iterator movement against the reference cursor
-     MemRefine     simulation and the refinement theorem *)
+     MemRefine     simulation and the refinement theorem
+   (Mem/MemConcProofs.v: one writer and many readers; Mem/MemTotal.v: no program panics) *)
 From GL Require Export Base.OrderProofs Mem.MemDB Mem.MemSpec Mem.ArrayLemmas Mem.ListLemmas
   Mem.MemInv Mem.MemFrame Mem.MemFind Mem.MemSpecProofs Mem.MemPut Mem.MemDelete Mem.MemOps
   Mem.MemIter Mem.MemRefine.
